@@ -277,7 +277,7 @@ def vc_glb(ctx):
 
             def atom(t, mapping=mapping):
                 ts = subst(t, mapping)
-                if is_call(ts, 'min') and len(ts[2]) == 2:
+                if is_call(ts, 'min', local=False) and len(ts[2]) == 2:
                     a, b = versionless(ts[2][0]), versionless(ts[2][1])
                     for x, y in ((a, b), (b, a)):
                         if is_call(y, 'get', self_adt='VClock') and x[0] == 'field' and x[2] == '1':
